@@ -273,6 +273,7 @@ BASE_POINT = {
                           #      with its OWN externs T1..T3 of different C++ types; implies distinct interfaces)
     'evorder': 'grouped', # D4b: grouped (ins then outs) | interleaved (in,out,in,out,...) | outsfirst
     'mc': 'none',         # D9: none | p0:<granting index> | p1:<granting index>
+    'mcsig': 'io',        # D9b: formals of claim/release: io = claim(in,out) release(out) | none | inout = claim(inout) release(in)
     'kind': 'component',  # D10
     'prefix': '',         # D11: '' | 'Other.Project'
 }
@@ -282,23 +283,26 @@ DIMS = {
     'place': ['same', 'parent', 'global', 'sibling', 'shadow'],
     'extscope': ['global', 'split'],
     'spell': ['simple', 'partial', 'full'],
-    'nprov': [0, 1, 2], 'nreq': [0, 1, 2], 'ninj': [0, 1],
+    'nprov': [0, 1, 2, 3], 'nreq': [0, 1, 2, 3], 'ninj': [0, 1],
     'share': [True, False],
     'menu': ['full', 'empty', 'inonly', 'outonly'],
     'evorder': ['grouped', 'interleaved', 'outsfirst', 'reversed'],
-    'names': ['plain', 'caps', 'under'],
+    'names': ['plain', 'caps', 'under', 'evlike'],
     'evnames': ['plain', 'acqfree', 'swapped'],
     'psem': ['MTS', 'STS'],
-    'rsem': ['allmts', 'allsts', 'firstmts', 'firststs'],
+    'rsem': ['allmts', 'allsts', 'firstmts', 'firststs', 'lastmts', 'laststs'],
     'fac': ['create', 'import'],
     'mc': ['none', 'p0:0', 'p0:1', 'p0:2', 'p1:0'],
+    'mcsig': ['io', 'none', 'inout'],
     'kind': ['component', 'system'],
     'prefix': ['', 'Other.Project'],
 }
 
-PORT_NAMES = {'plain': (['p', 'p2'], ['r', 'r2'], ['inj']),
-              'caps': (['Api', 'Api2'], ['Hal', 'Hal2'], ['Inj']),
-              'under': (['_p1', '_p2'], ['r_1', 'r_2'], ['i_n_j'])}
+PORT_NAMES = {'plain': (['p', 'p2', 'p3'], ['r', 'r2', 'r3'], ['inj']),
+              'caps': (['Api', 'Api2', 'Api3'], ['Hal', 'Hal2', 'Hal3'], ['Inj']),
+              'under': (['_p1', '_p2', '_p3'], ['r_1', 'r_2', 'r_3'], ['i_n_j']),
+              # ports named like events of their own interfaces
+              'evlike': (['V0', 'O2', 'Evt'], ['O0', 'Same', 'Claim'], ['BoolRet'])}
 
 CLAIM_NAMES = {'plain': ('Claim', 'Release'), 'acqfree': ('Acquire', 'Free'), 'swapped': ('Release', 'Claim')}
 
@@ -345,10 +349,12 @@ def menu_events(menu):
     return evs
 
 
-def mc_events(evnames):
+def mc_events(evnames, mcsig='io'):
     claim, release = CLAIM_NAMES[evnames]
-    return [[claim, 'in', ['Res'], [['a', ['T1'], 'in'], ['b', ['T2'], 'out']]],
-            [release, 'in', ['void'], [['b', ['T2'], 'out']]],
+    cf = {'io': [['a', ['T1'], 'in'], ['b', ['T2'], 'out']], 'none': [], 'inout': [['a', ['T1'], 'inout']]}[mcsig]
+    rf = {'io': [['b', ['T2'], 'out']], 'none': [], 'inout': [['b', ['T2'], 'in']]}[mcsig]
+    return [[claim, 'in', ['Res'], cf],
+            [release, 'in', ['void'], rf],
             ['Other', 'in', ['void'], [['a', ['T1'], 'in']]],
             ['Other2', 'in', ['bool'], []],
             ['Evt', 'out', ['void'], [['a', ['T1'], 'in']]],
@@ -377,7 +383,9 @@ def valid_point(pt):
             return False
         if pt['mc'].startswith('p1') and pt['nprov'] < 2:
             return False
-    if pt['rsem'] in ('firstmts', 'firststs') and pt['nreq'] < 2:
+    if pt['rsem'] in ('firstmts', 'firststs', 'lastmts', 'laststs') and pt['nreq'] < 2:
+        return False
+    if pt.get('mcsig', 'io') != 'io' and pt['mc'] == 'none':
         return False
     if pt['nreq'] == 0 and pt['rsem'] != 'allmts':
         return False
@@ -426,7 +434,7 @@ def build_model(pt):
     interfaces = []
 
     def make_itf(name, is_mc):
-        events = mc_events(pt['evnames']) if is_mc else menu_events(pt['menu'])
+        events = mc_events(pt['evnames'], pt.get('mcsig', 'io')) if is_mc else menu_events(pt['menu'])
         events = reorder(events, pt.get('evorder', 'grouped'))
         node = ['interface', name, [list(t) for t in types], events]
         if split:
@@ -502,11 +510,16 @@ def build_model(pt):
             sem[r] = 'STS'
         elif rsem == 'firstmts':
             sem[r] = 'MTS' if i == 0 else 'STS'
-        else:
+        elif rsem == 'firststs':
             sem[r] = 'STS' if i == 0 else 'MTS'
+        elif rsem == 'lastmts':
+            sem[r] = 'MTS' if i == len(req) - 1 else 'STS'
+        else:
+            sem[r] = 'STS' if i == len(req) - 1 else 'MTS'
     psel = ['NONE', 'ALL'] if pt['psem'] == 'MTS' else ['ALL', 'NONE']
     rsel = {'allmts': ['NONE', 'ALL'], 'allsts': ['ALL', 'NONE'],
-            'firstmts': ['REMAINING', req[:1]], 'firststs': [req[:1], 'REMAINING']}[rsem]
+            'firstmts': ['REMAINING', req[:1]], 'firststs': [req[:1], 'REMAINING'],
+            'lastmts': [req[:-1] or 'NONE', req[-1:] or 'NONE'], 'laststs': [req[-1:] or 'NONE', 'REMAINING']}[rsem]
     cfg = {'suffix': 'Shell', 'fac': pt['fac'], 'prefix': pt['prefix'], 'sem': sem,
            'provides': psel, 'requires': rsel, 'mc': None,
            'copyright': 'Copyright (c) verif\nAll rights reserved', 'creator': 'created by vf'}
